@@ -2,10 +2,10 @@
 # usage: tools/seedsave.sh <ID> <slug> "<needs>" "<caught-by>"   -- stores a verified seeded change under /verif/seeded/<ID>-<slug>/
 ID=$1; SLUG=$2; NEEDS=$3; CAUGHT=$4
 D=/verif/seeded/$ID-$SLUG; mkdir -p $D
-cp /tmp/seed/out/$ID/patch.diff $D/
-[ -f /tmp/seed/out/$ID/demo_test.go ] && cp /tmp/seed/out/$ID/demo_test.go $D/demo_test.go.txt
-[ -d /tmp/seed/out/$ID/demo ] && cp -r /tmp/seed/out/$ID/demo $D/
-cp /tmp/seed/out/$ID/NOTES.md $D/NOTES.md
+cp ${SEED_ROOT:-/tmp/seed}/out/$ID/patch.diff $D/
+[ -f ${SEED_ROOT:-/tmp/seed}/out/$ID/demo_test.go ] && cp ${SEED_ROOT:-/tmp/seed}/out/$ID/demo_test.go $D/demo_test.go.txt
+[ -d ${SEED_ROOT:-/tmp/seed}/out/$ID/demo ] && cp -r ${SEED_ROOT:-/tmp/seed}/out/$ID/demo $D/
+cp ${SEED_ROOT:-/tmp/seed}/out/$ID/NOTES.md $D/NOTES.md
 python3 - "$ID" "$SLUG" "$NEEDS" "$CAUGHT" <<'PY'
 import json,sys
 i,slug,needs,caught=sys.argv[1:5]
